@@ -20,7 +20,7 @@
    chunkings (readck). *)
 From Coq Require Import List ZArith Bool.
 Import ListNotations.
-From LC Require Import Base Tree FlexEngine Chunked FlexBuf FlexBufFacts Lexer Parser Reader ScannerCert.
+From LC Require Import Base Tree FlexEngine Chunked FlexBuf FlexBufFacts LexStream Lexer Parser Reader ScannerCert.
 From LC.gen Require Import Consts.
 Local Open Scope Z_scope.
 
@@ -106,3 +106,30 @@ Print Assumptions C20_inputs_agree.
 Theorem C20_chunked_is_buffered : forall T rbs sc bol chunks lens, (1 <= rbs)%nat -> concat chunks <> [] ->
   exists st' strm', fb_match T rbs sc bol (fb_of_stream 1) (concat chunks, lens) = (FbAct (match_chunked T sc bol chunks), st', strm').
 Proof. exact chunked_is_buffered. Qed.
+
+
+(* ------------------------------------------------------------------------------------------------------- *)
+(* the whole scanner, include machine and reader over buffered streams (LexStream.v)                        *)
+(* ------------------------------------------------------------------------------------------------------- *)
+
+(* the scanner with its include machine, every file and the top-level input read through a flex buffer fed by a stream that
+   delivers its data in any pieces (chunks_of: any oracle, also for the included files), yields exactly the token stream of
+   lex_top: tokens with their lines, files, errors and events, and the stop kind *)
+Theorem C20_lex_top : forall atof FS c top mode text chunks_of,
+  slex_top atof BUF RBUF chunks_of FS c top mode text = lex_top atof FS c top text.
+Proof. exact LexStream.C20_lex_top. Qed.
+Print Assumptions C20_lex_top.
+
+(* THE PROPERTY in the model: config_read of a string, of a stream however it delivers its data, and config_read_file of a
+   file holding the same bytes give the same result - tree, outcome, error fields, events - also when the reads of the
+   included files are cut arbitrarily *)
+Theorem C20_config_read : forall atof FS c top text chunks chunks_of1 chunks_of2,
+  config_read_stream atof BUF RBUF chunks_of1 FS c top TopString text = config_read atof FS c top text /\
+  config_read_stream atof BUF RBUF chunks_of2 FS c top (TopStream chunks) text = config_read atof FS c top text.
+Proof. exact LexStream.C20_config_read. Qed.
+Print Assumptions C20_config_read.
+
+Theorem C20_config_read_file : forall atof FS c path chunks chunks_of,
+  config_read_file_stream atof BUF RBUF chunks_of FS c path chunks = config_read_file atof FS c path.
+Proof. exact LexStream.C20_config_read_file. Qed.
+Print Assumptions C20_config_read_file.
